@@ -22,13 +22,28 @@ func init() {
 				"(refund) the refunded volume is a copy of WantSell of the very object handed to updateOrders (on every path: the refund and the closing act on the same order, so amounts filled earlier in the block are not refunded — the difference between the stored copy and the live order), in the order's sell coin Coin1, and the same value is reported to the supply checker; the handler credits exactly the (coin, volume) pair returned; ExpireOrders credits order.Owner with the pair returned for that order and skips zero volumes; orders closed for falling below the minimum volume are refunded their remaining WantSell in Coin1 to their Owner; " +
 				"(who) removeLimitOrder is called only by PairRemoveLimitOrder and ExpireOrders, and PairRemoveLimitOrder only by the live handler.",
 			Assumptions: stdAssumptions,
-			Rules:       []string{"C14.owner", "C14.once", "C14.refund", "C14.who", "C14.minvol"},
+			Rules:       []string{"C14.owner", "C14.once", "C14.refund", "C14.who", "C14.minvol", "C14.prec"},
 		},
 		Run: runC14,
 	})
 }
 
 func runC14(c *core.Ctx) {
+	// the amounts of a partial fill are computed from the order's price in the functions that build
+	// the fill records (a Limit per order touched): no 53-bit intermediate there
+	defer checkFloatPrecisionIn(c, "C14.prec", []string{core.PkgState + "/swap"}, "the functions of the swap module that build fill records", "so the amount computed from the order's price (a ratio of two amounts of up to 10^33) is off by far more than the one unit of rounding a fill may cost its owner", 4,
+		func(fn *ssa.Function) bool {
+			for _, b := range fn.Blocks {
+				for _, in := range b.Instrs {
+					if al, ok := in.(*ssa.Alloc); ok {
+						if n := namedOf(al.Type()); n != nil && n.Obj().Name() == "Limit" {
+							return true
+						}
+					}
+				}
+			}
+			return false
+		})
 	defer checkMinimumVolume(c, "C14.minvol")
 	var m *RunModel
 	for _, lm := range LiveModels(c, "C14.owner") {
